@@ -430,6 +430,9 @@ class Abs:
             f.append("inheriting")
         if self.renamed:
             f.append("model-renamed")
+        for mk in sorted(self.marks):
+            if mk not in f:
+                f.append(mk)
         return f
 
     def _foreign(self, model, toks):
@@ -548,6 +551,8 @@ class Abs:
             for l2, dst in [(l, add_c) for l in tg_core] + [(l, add_e) for l in tg_ext]:
                 if l2 in done or not self.loc_ok(l2):
                     continue
+                if s.kind == "module" and model_of(l2) != s.model:
+                    continue        # (a module object bound in another model is pickled by name: unreadable, not C18's business)
                 done.add(l2)
                 n = self.free_name(l2)
                 if n:
